@@ -126,7 +126,28 @@ func VerifC36Restart() {
 
 	n := 1 + verifChoose("n", maxOps)
 	for k := 0; k < n; k++ {
-		switch verifChoose("op", 3) {
+		switch verifChoose("op", 4) {
+		case 3:
+			// a chunk the node has already seen arrives again as a remote chunk (late or replayed chunk-signature
+			// request; nothing in front of VerifyRemoteChunk filters these) while it has not expired: whether it is
+			// still pending or was saved as accepted meanwhile, a restart must not change what the storage answers
+			if len(chunks) == 0 {
+				verifAssume(false)
+			}
+			i := verifChoose("again", len(chunks))
+			verifAssume(chunks[i].Expiry >= lastMin)
+			// (a chunk that is still pending WITHOUT a certificate is left out: VerifyRemoteChunk dereferences the nil
+			// certificate there — a crash unrelated to restarts, recorded in notes/side-findings, not a C36 matter)
+			if isPending[i] {
+				verifAssume(hasCert[i])
+			}
+			if _, err := s.VerifyRemoteChunk(chunks[i]); err != nil {
+				verifFail("verify-remote-chunk-again-error")
+			}
+			if !isPending[i] {
+				verifReach("accepted-chunk-arrives-again")
+			}
+			isPending[i] = true
 		case 0:
 			// add a fresh chunk (each chunk is added once: documented caller precondition), locally with its
 			// certificate or as a remote chunk without
